@@ -1478,6 +1478,8 @@ pub const IMPORT_FORMS: &[&str] = &[
     // (35) what the file does to a cell of the importer happens; (36) inside a loop of the importer
     "outer_c := mut 0; m := import \"p\"; (m.a, *outer_c)",
     "outer_c := mut 0; n := mut 0; while *n < 3 { n += 1; m := import \"p\" }; *outer_c",
+    // (37) a file in a directory imports a DIFFERENT file that has the same base name (`d/p` imports `p`)
+    "m := import \"d/p\"; (m.b2, m.inner.a, m.inner.f(1))",
 ];
 const ESCAPED_P_FORM: usize = 31;
 const TILDE_FORM: usize = 32;
@@ -1504,6 +1506,7 @@ fn expected_value(form: usize, p: &str, q: &str) -> Option<&'static str> {
         (21, "uses-importer-name", _) => Some("9"),
         (22, "uses-importer-name", _) => Some("(4,6)"),
         (26, "nbsp-literal", _) => Some("(true,5)"),
+        (37, "valid", _) => Some("(5,1,2)"),
         (33, "valid", _) => Some("(1,3)"),
         (34, "valid", _) => Some("4"),
         (35, "effect-on-importer", _) => Some("(1,5)"),
@@ -1554,6 +1557,9 @@ pub fn run_import_case(case: &ImportCase, key_seed: u64) -> RunReport {
         if let Some(n) = module_node(case.q_state) {
             o.nodes.insert("q".into(), n);
         }
+        // a directory holding a file with the same base name as `p`, which imports `p`
+        o.nodes.insert("d".into(), Node::Dir);
+        o.nodes.insert("d/p".into(), Node::File(b"inner := import \"p\"; b2 := 5".to_vec()));
         if let Some(b) = case.before {
             // first parse with p in another state, same thread; then the file changes
             let mut first = SimOs::new();
@@ -1614,10 +1620,10 @@ pub fn run_import_case(case: &ImportCase, key_seed: u64) -> RunReport {
                 // a readable, well-formed file imported without any fault: the import must succeed
                 let q_ok = MODULE_STATES[case.p_state].0 != "nested" || module_names(MODULE_STATES[case.q_state].0).is_some();
                 // (forms 6 and 8 use the members a / s / f, which only the "valid" file declares)
-                let uses_members = matches!(case.form, 6 | 8 | 33);
+                let uses_members = matches!(case.form, 6 | 8 | 33 | 37);
                 if case.fault.is_none()
                     && case.form != 7
-                    && (case.form <= LAST_PLAIN_FORM || plain_spelling(case.form) || matches!(case.form, 33 | 34))
+                    && (case.form <= LAST_PLAIN_FORM || plain_spelling(case.form) || matches!(case.form, 33 | 34 | 37))
                     && module_names(MODULE_STATES[case.p_state].0).is_some()
                     && q_ok
                     && (!uses_members || MODULE_STATES[case.p_state].0 == "valid")
